@@ -7,8 +7,10 @@ import (
 	"go/types"
 	"os"
 	"sort"
+	"strconv"
 	"strings"
 	"sync"
+	"time"
 
 	"golang.org/x/tools/go/ssa"
 )
@@ -36,6 +38,7 @@ type Frame struct {
 	barrier   bool // mustPanic barrier
 	onReturn  func(ret Value) (Value, bool)
 	harness   bool
+	symIf     map[*ssa.If]int
 	results   Value // pending results while running defers during normal return (recover path)
 	recovered bool
 }
@@ -63,6 +66,7 @@ type funcInfo struct {
 
 var funcInfoCache sync.Map
 var traceOn = os.Getenv("GOSX_TRACE") != ""
+var slowMs, _ = strconv.Atoi(os.Getenv("GOSX_SLOW"))
 
 func getFuncInfo(fn *ssa.Function, harnessFiles map[string]bool, fset *token.FileSet) *funcInfo {
 	if fi, ok := funcInfoCache.Load(fn); ok {
@@ -167,6 +171,8 @@ type Exec struct {
 	mapRev    bool
 	funcs     map[string]bool
 	model     []NDValue
+	pcUnchecked bool
+	fallback  func() *Solver
 }
 
 type Violation struct {
@@ -229,8 +235,32 @@ func (x *Exec) known(c *Term) int {
 	return 0
 }
 
+// solve runs the primary solver and, on unknown, the fallback solver (fresh scope with the whole pc).
+func (x *Exec) solve(extra *Term, vars []*Term) (SatResult, map[string]uint64) {
+	r, m := x.S.Check(x.pc, extra, vars)
+	if r != Unknown || x.fallback == nil {
+		return r, m
+	}
+	fb := x.fallback()
+	if fb == nil {
+		return r, m
+	}
+	fb.BeginPath()
+	r2, m2 := fb.Check(x.pc, extra, vars)
+	fb.EndPath()
+	if r2 != Unknown {
+		x.S.UnknownN--
+		x.S.Rescued++
+	}
+	return r2, m2
+}
+
 func (x *Exec) check(extra *Term) SatResult {
-	r, _ := x.S.Check(x.pc, extra, nil)
+	st := time.Now()
+	r, _ := x.solve(extra, nil)
+	if slowMs > 0 && time.Since(st) > time.Duration(slowMs)*time.Millisecond {
+		fmt.Fprintf(os.Stderr, "SLOW %v %s at %s\n", time.Since(st), r, x.lastPos)
+	}
 	if r == Unknown {
 		x.end("inconclusive", "solver unknown: "+x.S.LastErr)
 	}
@@ -329,7 +359,7 @@ func (x *Exec) concretize(t *Term, what string) uint64 {
 			x.assume(x.F.Eq(t, x.F.BV(t.W, v)))
 			return v
 		}
-		r, m := x.S.Check(x.pc, nil, termVars(t))
+		r, m := x.solve(nil, termVars(t))
 		if r == Unknown {
 			x.end("inconclusive", "solver unknown in concretize: "+x.S.LastErr)
 		}
@@ -412,7 +442,7 @@ func (x *Exec) violate(kind, msg string, extra *Term) {
 			vars = append(vars, v)
 		}
 	}
-	r, m := x.S.Check(x.pc, extra, vars)
+	r, m := x.solve(extra, vars)
 	if r == Unknown {
 		x.end("inconclusive", "solver unknown at violation: "+x.S.LastErr)
 	}
@@ -434,7 +464,7 @@ func (x *Exec) violate(kind, msg string, extra *Term) {
 // sampleModel asks the solver for one assignment satisfying the path condition of a completed path.
 func (x *Exec) sampleModel() {
 	defer func() { recover() }()
-	r, m := x.S.Check(x.pc, nil, x.pcVars())
+	r, m := x.solve(nil, x.pcVars())
 	if r != Sat {
 		return
 	}
